@@ -150,8 +150,11 @@ func HasData(dir string) (bool, error) {
 
 // RecoverNode is used to manually force a new configuration, in the event that
 // quorum cannot be restored. This borrows heavily from RecoverCluster functionality
-// of the Hashicorp Raft library, but has been customized for rqlite use.
-func RecoverNode(dataDir string, extensions []string, logger *log.Logger, logs raft.LogStore,
+// of the Hashicorp Raft library, but has been customized for rqlite use. The
+// log entries are replayed with foreign key constraints enforced or not, as
+// set by fkEnabled, so that they have the same effect as when they were first
+// applied.
+func RecoverNode(dataDir string, extensions []string, fkEnabled bool, logger *log.Logger, logs raft.LogStore,
 	stable *rlog.Log, snaps raft.SnapshotStore, tn raft.Transport, conf raft.Configuration) error {
 	logPrefix := logger.Prefix()
 	logger.SetPrefix(fmt.Sprintf("%s[recovery] ", logPrefix))
@@ -208,7 +211,7 @@ func RecoverNode(dataDir string, extensions []string, logger *log.Logger, logs r
 		drv = sql.NewDriver(random.StringPattern("rqlite-extended-recover-xxxx-xxxx-xxxx"),
 			extensions, sql.CnkOnCloseModeDisabled)
 	}
-	db, err := sql.OpenSwappable(tmpDBPath, drv, false, true, 0)
+	db, err := sql.OpenSwappable(tmpDBPath, drv, fkEnabled, true, 0)
 	if err != nil {
 		return fmt.Errorf("failed to open temporary database: %s", err)
 	}
